@@ -7,7 +7,7 @@ from typing import AbstractSet, Iterable, Any
 import numpy as np
 
 # pylint: disable=cyclic-import
-from .epsilon_nfa import to_single_state
+from .epsilon_nfa import to_single_state, _UniqueNames
 from .finite_automaton import to_state, to_symbol
 from .hopcroft_processing_list import HopcroftProcessingList
 # pylint: disable=cyclic-import
@@ -340,8 +340,9 @@ class DeterministicFiniteAutomaton(NondeterministicFiniteAutomaton):
             return res
         # Create a state for this
         to_new_states = {}
-        for group in groups:
-            new_state = to_single_state(group)
+        names = _UniqueNames()
+        for i, group in enumerate(groups):
+            new_state = names.get(i, to_single_state(group))
             for state in group:
                 to_new_states[state] = new_state
         # Build the DFA
